@@ -261,6 +261,77 @@ def run(ctx):
             if g.bin != want:
                 res.oracle_failures.append(("an interfeature's bin is not bins(start, end)",
                                             {"start": g.start, "end": g.end, "Feature.bin": canon(g.bin), "bins": canon(want)}))
+    # every write path of the database stores bins(start, end) with the coordinates it stores ------------------------------
+    import warnings
+
+    def stored_bins(db, when, history):
+        c = db.conn.cursor()
+        c.execute("SELECT id, start, end, bin FROM features")
+        for fid, s_, e_, b_ in c.fetchall():
+            if s_ is None or e_ is None:
+                continue
+            res.evaluations += 1
+            want = B.bins(s_, e_, one=True)
+            if b_ != want:
+                res.oracle_failures.append(("the bin stored for a feature is not bins(start, end) of the coordinates stored "
+                                            "with it (%s)" % when, {"id": fid, "start": s_, "end": e_, "stored_bin": b_,
+                                                                    "bins": canon(want), "history": history}))
+                return False
+        return True
+
+    def gl(fid, s_, e_, parent=None, ft="exon"):
+        return "chr1\tsrc\t%s\t%d\t%d\t.\t+\t.\tID=%s%s" % (ft, s_, e_, fid, ";Parent=" + parent if parent else "")
+
+    rb = ctx.rng("c12", "stored bins")
+    for i in range(40 if not ctx.thorough else 400):
+        k = rb.randrange(3)
+        a = rb.randrange(1, 30) * SIZES[k] + rb.choice([-3, 1, 5])
+        a = max(1, a)
+        b = a + rb.choice([10, 100, SIZES[0] // 2])
+        # the moved coordinates lie in another bin (another multiple of the bin size, or a span across a boundary)
+        a2 = max(1, rb.randrange(31, 60) * SIZES[k] + rb.choice([-3, 1, 5]))
+        b2 = a2 + rb.choice([10, SIZES[0] + 5, 3 * SIZES[1]])
+        hist = []
+        lines = [gl("g", 1, 10, ft="gene"), gl("x", a, b, "g"), gl("y", a + 20, b + 20, "g")]
+        with warnings.catch_warnings():
+            warnings.simplefilter("ignore")
+            try:
+                mode = i % 5
+                if mode == 0:
+                    hist.append("create_db(merge_strategy='replace') with the ID x twice, the second at other coordinates")
+                    db = gffutils.create_db("\n".join(lines + [gl("x", a2, b2, "g")]) + "\n", ":memory:", from_string=True,
+                                            merge_strategy="replace")
+                elif mode == 4:
+                    hist.append("create_db(transform=shift every feature by %d)" % (a2 - a))
+
+                    def shift(f, d=a2 - a):
+                        f.start += d
+                        f.end += d
+                        return f
+                    db = gffutils.create_db("\n".join(lines) + "\n", ":memory:", from_string=True, transform=shift)
+                else:
+                    db = gffutils.create_db("\n".join(lines) + "\n", ":memory:", from_string=True)
+                if not stored_bins(db, "after create_db", list(hist)):
+                    continue
+                if mode == 1:
+                    hist.append("update([x moved to %d..%d], merge_strategy='replace')" % (a2, b2))
+                    f = db["x"]
+                    f.start, f.end = a2, b2
+                    db.update([f], merge_strategy="replace", make_backup=False)
+                elif mode == 2:
+                    hist.append("add_relation('g', 'x', 2, child_func=move x to %d..%d)" % (a2, b2))
+
+                    def move(parent, child):
+                        child.start, child.end = a2, b2
+                        return child
+                    db.add_relation("g", "x", 2, child_func=move)
+                elif mode == 3:
+                    hist.append("merge_all()")
+                    db.merge_all(featuretypes_groups=(["exon"],))
+                stored_bins(db, "after " + hist[-1] if hist else "after create_db", list(hist))
+                res.count("stored_bins_history_mode_%d" % mode)
+            except Exception as ex:
+                res.oracle_failures.append(("a write path raised %r" % ex, {"history": hist, "lines": lines}))
     f = Feature(seqid="c", start=".", end=".")
     if f.bin is not None:
         res.oracle_failures.append(("Feature without coordinates has a bin", {"bin": canon(f.bin)}))
